@@ -325,7 +325,7 @@ const ruleC21 = "histories (postings creates, reverts, metadata writes), then pe
 func TestC21(t *testing.T) {
 	st := stats.New("C21", "exploration", ruleC21, assumePgsim, "entities whose filter evaluation falls in the class of known finding C20-null-under-not make the walk's content comparison be skipped (cursor mechanics are still checked)")
 	defer st.Write(t)
-	n := stats.N(100, 400)
+	n := stats.N(300, 800)
 	st.Set("requested_checks", n)
 	stats.Check(t, n, 21, func(rt *rapid.T) {
 		w, l, _ := RunHistory(rt, st, HistOpts{Focus: []string{"C21"}, Features: GenFeatures, Steps: 28, Scripts: false, Reverts: true, Metadata: true, MaxPostings: 3})
